@@ -61,11 +61,19 @@ namespace {
         unsigned short cw = (unsigned short) v;
         asm volatile("fldcw %0" : : "m"(cw));
     }
-    inline unsigned fp_mode_now() { return ((_mm_getcsr() >> 13) & 3) | (((get_x87cw() >> 10) & 3) << 2); }
+    // rounding control of both units and the x87 precision control
+    inline unsigned fp_mode_now() { return ((_mm_getcsr() >> 13) & 3) | (((get_x87cw() >> 8) & 15) << 2); }
+    // k = 0..3: rounding mode k in both units; k = 4..7: only the x87 control word changes (rounding mode k-4 and,
+    // for 6/7, 53-bit precision control), the MXCSR keeps its control bits
     inline void fp_mode_set(int k)
     {
-        _mm_setcsr((_mm_getcsr() & ~0x6000u) | ((unsigned) (k & 3) << 13));
-        set_x87cw((get_x87cw() & ~0x0c00u) | ((unsigned) (k & 3) << 10));
+        if (k < 4)
+        {
+            _mm_setcsr((_mm_getcsr() & ~0x6000u) | ((unsigned) (k & 3) << 13));
+            set_x87cw((get_x87cw() & ~0x0f00u) | 0x0300u | ((unsigned) (k & 3) << 10));
+        }
+        else
+            set_x87cw((get_x87cw() & ~0x0f00u) | ((k & 2) ? 0x0200u : 0x0300u) | ((unsigned) ((k & 1) + 1) << 10));
     }
 
     uint64_t pat(int tok, int depth, int k) { return 0x9e3779b97f4a7c15ull * (uint64_t) (tok * 7919 + depth * 104729 + k + 1); }
@@ -83,6 +91,9 @@ namespace {
             // the task's floating-point control state (rounding mode 0 = the default)
             int fpm = T[(size_t) tok].fp_mode;
             if (fpm) fp_mode_set(fpm);
+            // x87-only modes: with and without pending SSE exception flags (the MXCSR as a whole may or may not
+            // equal the scheduler's)
+            if (fpm >= 4 && (tok & 1)) _mm_setcsr(_mm_getcsr() & ~0x3fu);
             unsigned fp_before = fp_mode_now();
             // live locals: integers and doubles kept across the suspension points
             uint64_t a = pat(tok, 1000, 1), b = pat(tok, 1000, 2), c = pat(tok, 1000, 3);
@@ -105,7 +116,7 @@ namespace {
                     VH_CHECK(fp_after == fp_before, "C12.fp_control",
                         "floating-point control state of task %d changed across a yield: rounding control (mxcsr | x87<<2) %u before, "
                         "%u after (task set mode %d)", tok, fp_before, fp_after, fpm);
-                    if (fpm) probe("fp_mode_kept_across_yield");
+                    if (fpm) probe(fpm >= 4 ? "x87_only_mode_kept_across_yield" : "fp_mode_kept_across_yield");
                 }
                 VH_CHECK(a == pat(tok, 1000, 1) && b == pat(tok, 1000, 2) && c == pat(tok, 1000, 3), "C12.locals",
                     "integer locals of task %d changed across a yield", tok);
@@ -241,7 +252,7 @@ namespace {
                 op.v[2] = r.range(4, 64);
                 op.v[3] = r.range(0, 5);
                 op.v[4] = r.chance(1, 3) ? (int64_t) r.below(8) : 0;
-                op.v[5] = r.chance(1, 3) ? (int64_t) r.below(4) : 0;
+                op.v[5] = r.chance(1, 3) ? (int64_t) r.below(8) : 0;
                 op.v[6] = r.chance(1, 4) ? 1 : 0;    // spawns a child with thread_stacksize::current
                 p.push_back(op);
             }
@@ -268,7 +279,7 @@ namespace {
             t.frame_words = (int) (op.v[2] < 1 ? 1 : op.v[2] > 64 ? 64 : op.v[2]);
             t.yields = (int) (op.v[3] & 7);
             t.dirt = (int) (op.v[4] & 7);
-            t.fp_mode = (int) (op.v[5] & 3);
+            t.fp_mode = (int) (op.v[5] & 7);
             t.current_child = (op.v[6] & 1) != 0;
             ex::execute(ex::with_stacksize(ex::thread_pool_scheduler{}, classes[t.cls]), [i] { task_body(i); });
             if ((i + 1) % wave == 0) pika::wait();
